@@ -159,11 +159,49 @@ func VerifHarness_C17_Setup() {
 		}
 		conv.Methods = append(conv.Methods, &config.Method{Definition: def, Location: "in.go:" + name})
 	}
-	g, err := setupGenerator(conv, namer.New())
+	names := namer.New()
+	g, err := setupGenerator(conv, names)
 	verifReach("set-up")
 	real := clash && clashA != updateAt && clashB != updateAt
 	verifAssert("ambiguous-declared-methods-are-reported-at-every-position", (err != nil) == real)
 	if err == nil {
 		verifAssert("every-declared-method-registered", g != nil && len(g.lookup.GetAll()) == n)
+		// the name of every declared method - update methods included - is taken: no generated helper gets it
+		for i := 0; i < n; i++ {
+			verifAssert("declared-method-name-is-reserved", !names.Register([]string{"A", "B", "C", "D"}[i]))
+		}
 	}
+}
+
+// VerifHarness_C17_ValidateEvery: a declared method that carries field settings (or enum settings) it cannot
+// use is reported wherever it stands - also when it shares its signature with other declared methods (methods
+// for one pair that differ in their contexts are kept in one bucket of the index).
+func VerifHarness_C17_ValidateEvery() {
+	n := 2 + nondetChoice("methods", 2)
+	shared := nondetBool("methods-share-one-signature")
+	faultyAt := nondetChoice("faulty-method", n+1) // n: none
+	enumFault := nondetBool("fault-is-an-enum-setting")
+	lookup := method.NewIndex[generatedMethod]()
+	ctxT := []*xtype.Type{xtype.TypeOf(verifNamed("CtxA", verifUserPkg, types.NewStruct(nil, nil))), xtype.TypeOf(verifNamed("CtxB", verifUserPkg, types.NewStruct(nil, nil))), xtype.TypeOf(verifNamed("CtxC", verifUserPkg, types.NewStruct(nil, nil)))}
+	for i := 0; i < n; i++ {
+		name := []string{"ConvertA", "ConvertB", "ConvertC"}[i]
+		src, tgt := "S"+name, "T"+name
+		if shared {
+			src, tgt = "S", "T"
+		}
+		gm := verifGenMethod(name, src, tgt, false)
+		gm.Definition.Context = map[string]*xtype.Type{ctxT[i].String: ctxT[i]}
+		if i == faultyAt {
+			if enumFault {
+				gm.EnumMapping = &config.EnumMapping{Map: map[string]string{"A": "B"}}
+			} else {
+				gm.RawFieldSettings = []string{"ignore A"}
+			}
+		}
+		_, err := lookup.Register(gm, gm.Definition)
+		verifAssert("registered", err == nil)
+	}
+	err := validateMethods(lookup)
+	verifReach("validated")
+	verifAssert("unusable-settings-are-reported-at-every-position", (err != nil) == (faultyAt < n))
 }
